@@ -28,7 +28,7 @@ def oom_variants(flavour="asan"):
 
 
 def build_oom(b):
-    vs = b.build_variants(oom_variants())
+    vs = b.build_variants(oom_variants(), required=("def",))
     return b.build_engine("oom", ["gen.c", "eng/engutil.c", "eng/oom.c"], vs, "asan", core=("heap.c", "die.c", "fs.c", "sched.c")), vs
 
 
@@ -161,7 +161,7 @@ def check_C20(tier, seed, replay=None):
 # ------------------------------------------------------------------ C18
 def build_fs(b):
     vs = b.build_variants([Variant("def", flavour="asan", knobs=True), Variant("ts", mmc=0, mzdcache=0, flavour="asan", knobs=True),
-                           Variant("nosse", sse2=0, flavour="asan", knobs=True)])
+                           Variant("nosse", sse2=0, flavour="asan", knobs=True)], required=("def",))
     return b.build_engine("fs", ["gen.c", "eng/engutil.c", "eng/fs.c"], vs, "asan"), vs
 
 
@@ -281,7 +281,7 @@ def build_alloc(b, flavours=("asan", "plain")):
     exes, allv = [], []
     for fl in flavours:
         vs = [Variant(v.name + ("_p" if fl == "plain" else ""), sse2=v.sse2, mmc=v.mmc, mzdcache=v.mzdcache, flavour=fl, knobs=True) for v in alloc_variants(fl)]
-        b.build_variants(vs)
+        b.build_variants(vs, required=(vs[0].name,))
         exes.append(b.build_engine("alloc_" + fl, ["gen.c", "eng/engutil.c", "eng/alloc.c"], vs, fl))
         allv += vs
     return exes, allv
@@ -291,7 +291,7 @@ def build_hist(b, flavours=("asan", "plain")):
     exes, allv = [], []
     for fl in flavours:
         vs = [Variant(v.name + ("_p" if fl == "plain" else ""), sse2=v.sse2, mmc=v.mmc, mzdcache=v.mzdcache, flavour=fl, knobs=True) for v in alloc_variants(fl)]
-        b.build_variants(vs)
+        b.build_variants(vs, required=(vs[0].name,))
         exes.append(b.build_engine("hist_" + fl, ["gen.c", "eng/engutil.c", "eng/hist.c"], vs, fl))
         allv += vs
     return exes, allv
@@ -631,7 +631,7 @@ def build_omp(b):
           Variant("seq", flavour="plain", knobs=True),
           Variant("ompn", sse2=0, openmp=1, mmc=1, mzdcache=0, flavour="mon", knobs=True),
           Variant("seqn", sse2=0, flavour="plain", knobs=True)]
-    b.build_variants(vs)
+    b.build_variants(vs, required=("omp", "seq"))
     return b.build_engine("omp", ["gen.c", "eng/engutil.c", "eng/omp.c"], vs, "mon", core=("heap.c", "die.c", "fs.c", "sched.c")), vs
 
 
@@ -649,7 +649,7 @@ def build_cfg(b, names=None, const_triples=()):
     vs = [Variant("ref", flavour="plain", knobs=False)] + [Variant(n, flavour="plain", knobs=True, **CFG_VARIANTS[n]) for n in names]
     # constant-size builds for the cross-validation: no block/header cache, so that allocation request sequences are a pure function of the code path
     vs += [Variant("k%d" % i, flavour="plain", knobs=False, mmc=0, mzdcache=0, l1=t[0], l2=t[1], l3=t[2]) for i, t in enumerate(const_triples)]
-    b.build_variants(vs)
+    b.build_variants(vs, required=("ref", "s_c_q"))
     return b.build_engine("cfg", ["gen.c", "eng/engutil.c", "eng/cfg.c"], vs, "plain", core=("heap.c", "die.c", "fs.c", "sched.c")), vs
 
 
